@@ -326,5 +326,12 @@ func LongTexts(hostile string) []string {
 		lines[i] = fmt.Sprintf("line %d", i+1)
 	}
 	out = append(out, strings.Join(lines, "\n"), strings.Join(lines[:12], "\n")+"\n")
+	// many lines (around 256, 1024 and 4096) and one very long line among short ones (around 64 KiB)
+	for _, n := range []int{255, 257, 1023, 1024, 1025, 4097} {
+		out = append(out, strings.TrimSuffix(strings.Repeat("l\n", n), "\n"))
+	}
+	for _, n := range []int{65535, 65536, 70000} {
+		out = append(out, "a\n"+strings.Repeat("x", n)+"\nb")
+	}
 	return out
 }
